@@ -98,6 +98,11 @@ func init() {
 		}()
 		var key intoto.Key
 		var err error
+		if pre := str(a["preload_pem"]); pre != "" {
+			// the Key object is not fresh: other material was loaded into it before (outcome ignored);
+			// what a load yields must depend on the material of THAT load only (seeded change c19-keyval-not-reset)
+			_ = key.LoadKeyReaderDefaults(strings.NewReader(pre))
+		}
 		data := str(a["pem"])
 		explicit := a["scheme"] != nil
 		switch str(a["via"]) {
@@ -300,13 +305,27 @@ func runC19(r *Runner, tier string, rng *Rng) {
 			pubPEM = pemOf("PUBLIC KEY", der)
 		}
 		via := rng.Pick([]string{"file", "reader"})
+		preload := ""
+		if rng.Chance(30) {
+			switch rng.Intn(3) {
+			case 0: // the private form of the same pair
+				preload, _ = encodeForm(kd.kind, "pkcs8", priv, pub)
+			case 1: // private material of another pair
+				ok := pool()[[]int{2, 4, 0}[rng.Intn(3)]]
+				preload, _ = encodeForm(ok.Kind, "pkcs8", ok.Signer, ok.Signer.Public())
+			default: // a certificate-less public key of another pair
+				ok := pool()[[]int{3, 5}[rng.Intn(2)]]
+				preload, _ = encodeForm(ok.Kind, "pkix", ok.Signer, ok.Signer.Public())
+			}
+			feat += ":reused"
+		}
 		r.St.Count("loads")
 		batch = append(batch, Case{Op: "keyload", Args: map[string]any{"kind": kd.kind, "form": modelForm, "pem": text, "scheme": scheme, "algs": algs, "via": via,
-			"expect_id": hex.EncodeToString(h[:]), "expect_public": expPub, "partner_pem": partner, "pub_pem": pubPEM}, Feat: feat + ":" + fmt.Sprint(scheme != nil)})
+			"expect_id": hex.EncodeToString(h[:]), "expect_public": expPub, "partner_pem": partner, "pub_pem": pubPEM, "preload_pem": preload}, Feat: feat + ":" + fmt.Sprint(scheme != nil)})
 		if len(batch) >= 100 {
 			flush()
 		}
 	}
 	flush()
-	r.St.Rule = "freshly generated keys (RSA 2048 (thorough: 3072), ECDSA P-224/256/384/521, Ed25519) in every PEM form each supports (PKCS#8, PKCS#1, SEC1, PKIX, certificate), with surrounding whitespace / comment / trailing data, from file and from reader, default and explicit scheme and id-algorithm lists (valid and invalid), plus truncated, bit-flipped, encrypted, foreign, empty and non-PEM input; compared: ok/err, key type, scheme, presence of private half and certificate, the public half against crypto/x509 encodings, the key id against SHA-256 of the MODEL's canonical preimage, and sign-with-private / verify-with-public across two forms of one pair incl. an independent crypto/* verification. Class = (key kind, form, corruption, explicit scheme, outcome)."
+	r.St.Rule = "freshly generated keys (RSA 2048 (thorough: 3072), ECDSA P-224/256/384/521, Ed25519) in every PEM form each supports (PKCS#8, PKCS#1, SEC1, PKIX, certificate), with surrounding whitespace / comment / trailing data, from file and from reader, into a fresh Key object or (30%) into one that already holds other private or public material, default and explicit scheme and id-algorithm lists (valid and invalid), plus truncated, bit-flipped, encrypted, foreign, empty and non-PEM input; compared: ok/err, key type, scheme, presence of private half and certificate, the public half against crypto/x509 encodings, the key id against SHA-256 of the MODEL's canonical preimage, and sign-with-private / verify-with-public across two forms of one pair incl. an independent crypto/* verification. Class = (key kind, form, corruption, explicit scheme, outcome)."
 }
